@@ -1,8 +1,10 @@
 (* Extraction of the executable models to OCaml. ExtrOcamlBasic only: bool, option, unit,
    list, prod, sumbool, comparison map to the OCaml types; N, Z, positive, nat, byte stay the
    extracted inductives.  No Extract Constant. *)
-Require Import Base.Bytes Glob.GlobSpec Glob.GlobModel.
+Require Import Base.Bytes Base.GoInt Base.Reply Glob.GlobSpec Glob.GlobModel.
+Require Import Mem.Types Mem.Exec Mem.Server.
 Require Extraction.
 Require Import ExtrOcamlBasic.
 Extraction Language OCaml.
-Extraction "model.ml" Byte.of_N Byte.to_N gmatch keys_filter.
+Extraction "model.ml" byte_of_N byte_to_N gmatch keys_filter
+  z_to_dec parse_int_unbounded atoi64 purge srv_init srv_exec.
